@@ -1211,3 +1211,126 @@ func init() {
 		Gen:  c17GenNestedWriters,
 	})
 }
+
+// ---------------------------------------------------------------- print-deep-values
+//
+// Every value is rendered in full however deep it is nested: a program can wrap a value
+// more often than any JSON document may be nested (encoding/json stops at 10 000), and
+// such a value is no cycle. The values are built by a loop (a = [a], a = {k: a},
+// a = {k: [a]}, t = []; t.push(a); a = t, a = [1, a, 2]) 5 000 / 9 999 / 10 000 / 10 001 /
+// 10 050 / 20 000 times around a scalar, an empty container, or a container that really
+// holds itself; the expected text is the closed form (no marker unless the innermost
+// value is the real cycle, and then exactly there).
+
+type c17Wrap struct {
+	name        string
+	step        string // one wrapping step, a is the value
+	open, close string // what one step adds to the rendering
+	per         int    // containers per step
+}
+
+var c17Wraps = []c17Wrap{
+	{"arrays", "a = [a]", "[", "]", 1},
+	{"objects", "a = {k: a}", `{"k": `, "}", 1},
+	{"object holding an array", "a = {k: [a]}", `{"k": [`, "]}", 2},
+	{"array holding an object", "a = [{v: a}]", `[{"v": `, "}]", 2},
+	{"pushed", "t = []; t.push(a); a = t", "[", "]", 1},
+	{"member store", "t = {}; t.inner = a; a = t", `{"inner": `, "}", 1},
+	{"array with neighbours", "a = [1, a, 'z']", "[1, ", `, "z"]`, 1},
+	{"object with neighbours", "a = {a: null, m: a, z: []}", `{"a": null, "m": `, `, "z": []}`, 1},
+}
+
+type c17Core struct{ name, init, inner, top string } // inner: rendering inside a container; top: as a print argument of its own
+
+var c17Cores = []c17Core{
+	{"number", "a = 7", "7", "7"},
+	{"string", "a = 'x'", `"x"`, "x"},
+	{"empty array", "a = []", "[]", "[]"},
+	{"empty object", "a = {}", "{}", "{}"},
+	{"real cycle (array)", "a = [0]; a.push(a)", "[0, <circular reference>]", "[0, <circular reference>]"},
+	{"real cycle (object)", "a = {}; a.me = a", `{"me": <circular reference>}`, `{"me": <circular reference>}`},
+	{"real cycle of two", "b = {}; a = [b]; b.up = a", `[{"up": <circular reference>}]`, `[{"up": <circular reference>}]`},
+}
+
+func c17DeepCase(w c17Wrap, core c17Core, depth int, stmt int, askModel bool) Case {
+	steps := depth / w.per
+	rendering := core.top
+	if steps > 0 {
+		rendering = strings.Repeat(w.open, steps) + core.inner + strings.Repeat(w.close, steps)
+	}
+	var out, want string
+	switch stmt {
+	case 0:
+		out, want = "print a", rendering+"\n"
+	case 1:
+		out, want = "printf('%v|', a)", rendering+"|"
+	case 2:
+		out, want = "print 'v', a, a.length()", "v "+rendering+" "+map[bool]string{true: "1", false: "3"}[!strings.Contains(w.name, "neighbours")]+"\n"
+	default:
+		out, want = "printf('%-3v|%s', a, 'e')", rendering+"|e"
+	}
+	prog := fmt.Sprintf("BEGIN { %s; for (i = 0; i < %d; i++) { %s }\n %s }", core.init, steps, w.step, out)
+	markers := strings.Count(core.inner, "<circular reference>")
+	return Case{Req: RunReq(prog, nil, nil, false), Fields: c17Fields, ImplOnly: !askModel,
+		Meta: metaProg(prog, "row", fmt.Sprintf("%s around %s", w.name, core.name), "col", fmt.Sprint(depth), "expect_len", fmt.Sprint(len(want))),
+		Oracle: func(i Resp) string {
+			if i["class"] != "ok" {
+				return "class=" + i["class"] + " msg=" + i["msg"] + " (rendering a value cannot fail)"
+			}
+			got := string(i.Bytes("out"))
+			if got == want {
+				return ""
+			}
+			if n := strings.Count(got, "<circular reference>"); n != markers {
+				return fmt.Sprintf("a value nested %d deep (%s around %s) holds %d container(s) that reach themselves, the rendering shows %d cycle marker(s); %d bytes instead of %d", depth, w.name, core.name, markers, n, len(got), len(want))
+			}
+			return fmt.Sprintf("a value nested %d deep (%s around %s) is not rendered in full: %d bytes instead of %d; got %s … %s", depth, w.name, core.name, len(got), len(want), short(got), short(got[len(got)/2:]))
+		}}
+}
+
+func init() {
+	register(Family{
+		Name: "print-deep-values", Prop: "C17",
+		Rule: "program-built values nested 5 000 / 9 999 / 10 000 / 10 001 / 10 050 / 20 000 containers deep (beyond what any JSON input can be): 8 ways of wrapping (a = [a], {k: a}, {k: [a]}, [{v: a}], push into a fresh array, member store into a fresh object, arrays / objects with neighbours before and after) around a number, a string, an empty array / object, and containers that really hold themselves (array, object, ring of two); written by print, printf %v, print between other arguments, printf %-3v; oracle: the closed-form text -- every level rendered, no <circular reference> unless the innermost value is the real cycle and then exactly there; the model answers the array-shaped cases up to 10 050 deep (quick: 9 999 / 10 000 / 10 001 / 10 050 of a = [a] and of the pushed form; thorough: every depth up to 10 050 of both, and 10 001 of the two object/array mixtures -- nested objects this deep take the model seconds), the rest is implementation-only with the closed form; non-trivial = every case",
+		Gen: func(r *rand.Rand, tier string, emit func(Case)) {
+			nc := len(c17Cores)
+			// the model renders arrays quickly; nested objects cost it much more (quadratic key handling)
+			cheap := func(wi int) bool { return c17Wraps[wi].name == "arrays" || c17Wraps[wi].name == "pushed" }
+			if tier == "thorough" {
+				for wi, w := range c17Wraps {
+					for ci, core := range c17Cores {
+						for di, depth := range []int{5000, 9999, 10000, 10001, 10050, 20000} {
+							if depth == 20000 && strings.Contains(w.name, "neighbours") {
+								continue // seconds per case in the implementation (the text is copied once per level)
+							}
+							ask := depth <= 10050 && (cheap(wi) || (depth == 10001 && ci == 0 && w.per == 2))
+							emit(c17DeepCase(w, core, depth, (wi+ci+di)%4, ask))
+						}
+					}
+				}
+				return
+			}
+			// the boundary, on the plain shapes
+			for wi := 0; wi < 4; wi++ {
+				for di, depth := range []int{9999, 10000, 10001} {
+					ask := cheap(wi) // nested objects this deep take the model seconds: thorough tier only
+					emit(c17DeepCase(c17Wraps[wi], c17Cores[(wi+di)%2], depth, (wi+di)%2, ask))
+				}
+			}
+			// beyond it: every way of wrapping, every innermost value
+			for wi, w := range c17Wraps {
+				emit(c17DeepCase(w, c17Cores[wi%nc], 10050, wi%4, cheap(wi)))
+				if wi%2 == 0 {
+					emit(c17DeepCase(w, c17Cores[(wi+3)%nc], 5000, (wi+1)%4, false))
+				}
+			}
+			for ci, core := range c17Cores {
+				emit(c17DeepCase(c17Wraps[0], core, 10050, (ci+1)%4, ci == 0 || ci == 4))
+				emit(c17DeepCase(c17Wraps[1+ci%3], core, 10001, ci%4, false))
+			}
+			for k, wi := range []int{0, 1, 4} {
+				emit(c17DeepCase(c17Wraps[wi], c17Cores[[]int{0, 4, 1}[k]], 20000, k%2, false))
+			}
+		},
+	})
+}
